@@ -471,5 +471,8 @@ func (g *generator) walkObject(schema *schemaparser.Schema) (ast.Type, error) {
 		return fields[i].Name < fields[j].Name
 	})
 
-	return ast.NewStruct(fields...), nil
+	def := ast.NewStruct(fields...)
+	def.Default = unwrapJSONNumber(schema.Default)
+
+	return def, nil
 }
